@@ -24,7 +24,10 @@ ASSUMPTIONS = ["reference signer and serializer"]
 def plan(tier, seed):
     n = 240 if tier == "quick" else 6400
     shards = 12 if tier == "quick" else 32
-    return [{"kind": "docs", "count": n // shards} for _ in range(shards)]
+    specs = [{"kind": "docs", "count": n // shards} for _ in range(shards)]
+    for T in ([4] if tier == "quick" else [2, 4, 8, 16]):
+        specs.append({"kind": "threads", "threads": T, "count": 6 if tier == "quick" else 60})
+    return specs
 
 
 def gen_doc(rng, big=False):
@@ -268,7 +271,47 @@ def check_case(case, rec, lib, scratch):
         rec.violation("output/sign_all_in_repodata/resign-with-other-key-not-clean", "re-signing with another key leaves traces of the first run", case)
 
 
+def run_threads(spec, rec, lib):
+    """DIFFERENT repodata files signed with DIFFERENT keys at the same time: every file ends up as the expected signed form
+    of its own document under its own key"""
+    from ..engines import threads
+
+    rng = random.Random(spec["seed"])
+    S = lib.signing
+    T = spec["threads"]
+    for rnd in range(spec["count"]):
+        jobs, meta = [], []
+        for t in range(T * 2):
+            case = gen_doc(rng)
+            key = gkeys.from_seed_hex(case["seed"])
+            fn = os.path.join(spec["scratch"], "thr-%d-%d" % (rnd, t), "repodata.json")
+            os.makedirs(os.path.dirname(fn), exist_ok=True)
+            with open(fn, "wb") as f:
+                f.write(json.dumps(case["doc"]).encode("utf-8"))
+            with open(fn, "rb") as f:
+                original = json.load(f)
+            jobs.append((S.sign_all_in_repodata, (fn, key.seed.hex()), {}))
+            meta.append((fn, canonjson.canon(expected_doc(original, key)), case))
+        res = threads.run_calls(lib, jobs, T, rec, spec["seed"] * 100 + rnd, prob=0.1, label="sign_all_in_repodata")
+        if res is None:
+            return
+        for (fn, exp, case), out in zip(meta, res):
+            if out is None:
+                continue
+            rec.case("thr|%d|%s" % (T, case["seed"][:8]))
+            with open(fn, "rb") as f:
+                got = f.read()
+            if not out.accepted:
+                rec.violation(boundary.mechanism("sign-raises", "sign_all_in_repodata[threads]", "return", out),
+                              "signing a well-formed repodata document raised %s while other files were being signed" % out.cls, case)
+            elif got != exp:
+                rec.violation("output/sign_all_in_repodata/under-threads/file-is-not-the-expected-signed-document",
+                              "a file signed while %d other threads signed other files is not the expected signed form of its own document" % (T - 1), case)
+
+
 def run_shard(spec, rec, lib):
+    if spec.get("kind") == "threads":
+        return run_threads(spec, rec, lib)
     rng = random.Random(spec["seed"])
     for i in range(spec["count"]):
         case = gen_doc(rng, big=(i % 5 == 4))
